@@ -256,9 +256,11 @@ func (c *rapidContext) watchEvents(events <-chan supvmodel.Event) {
 		// At the moment we only get termination events.
 		// When their are other event types then we would need to be selective,
 		// about what we send to handleShutdownEvent().
-		c.shutdownContext.handleProcessExit(*termination)
-		verifhook.Point("rapid.watchEvents.beforeCancelFlows")
+		// cancel the flows before the exit is made visible to a reset/shutdown in progress:
+		// once that completes, the flows belong to the next generation and must not be cancelled
 		c.registrationService.CancelFlows(err)
+		verifhook.Point("rapid.watchEvents.beforeCancelFlows")
+		c.shutdownContext.handleProcessExit(*termination)
 	}
 }
 
